@@ -22,7 +22,7 @@ from .. import common
 from .. import gridutil as gu
 from ..fmutil import close, err_class, fm, rat
 
-MODULES = ["Index", "IndexLemmas", "Grid", "GridLemmas"]
+MODULES = ["Index", "IndexLemmas", "Grid", "GridLemmas", "CellLemmas"]
 GEN_OBLIGATIONS = ["cell_tables", "location_enum"]
 SIDES = (1, 2, 3, 4)
 
@@ -251,7 +251,7 @@ def oracle_memo(case):
             loc = gu.LOC_NAMES[y.data_location]
             if loc not in fresh:
                 f = gu.build_grid(spec, loc=loc)
-                fresh[loc] = (tuple(f.data_shape), int(f.data_size), len(f.data_points))
+                fresh[loc] = (tuple(int(v) for v in f.data_shape), int(f.data_size), len(f.data_points))
             exp = fresh[loc]
             got = (tuple(int(v) for v in y.data_shape), int(y.data_size), len(y.data_points))
             if got != exp:
@@ -369,7 +369,7 @@ def check_cases(cases, res):
 def run(ctx, res):
     res.rule = ("grid configurations from the full product kind{uniform,rectilinear} x dims{1..4}^(1..3) x order x "
                 "axes_reversed x per-axis direction x location plus all ESRI grids up to 4x4 x order (thorough: the "
-                "whole product, quick: corpus + every 1-D/2-D/ESRI configuration + a seeded sample of 700 3-D ones); random histories of 3-14 operations "
+                "whole product, quick: corpus + every 1-D/2-D/ESRI configuration + a seeded sample of 2000 3-D ones); random histories of 3-14 operations "
                 "{read shape, read size, read points, set location, copy, deep copy, cast} on a pool of grid "
                 "objects; every shape in {1,2,3}^(1..4) for the index maps; non-trivial = at least one "
                 "non-degenerate axis / a history that reads after a location change; distinct by canonical hash")
@@ -386,8 +386,8 @@ def run(ctx, res):
     else:
         low = [c for c in configs if len(gu.spec_dims(c["grid"])) < 3]
         high = [c for c in configs if len(gu.spec_dims(c["grid"])) == 3]
-        sample = low + ctx.rng.sample(high, 700)
-    memo = [gen_memo_case(ctx.rng) for _ in range(ctx.n(400, 4000))]
+        sample = low + ctx.rng.sample(high, 2000)
+    memo = [gen_memo_case(ctx.rng) for _ in range(ctx.n(1000, 4000))]
     check_cases(corpus() + index_cases() + sample + memo, res)
 
 
